@@ -57,6 +57,9 @@ type Net struct {
 	Root    string
 	ownRoot bool
 	Stats   map[string]int
+	GossipEvidence bool
+	evSent         map[string]bool
+	EvRejects      []string // a correct node's pool rejected evidence another correct node holds
 	// AfterStimulus, if set, is called after every stimulus given to a node (at quiescence); it may set Halt.
 	AfterStimulus func(n *Node)
 	Halt          bool
@@ -464,11 +467,49 @@ func (net *Net) fixpoint(maxIter int, all bool) (int, bool) {
 				progress = true
 			}
 		}
+		if net.GossipEvidence && net.gossipEvidence() {
+			progress = true
+		}
 		if !progress {
 			return total, true
 		}
 	}
 	return total, false
+}
+
+// gossipEvidence emulates the evidence reactor: every pending evidence of a node is offered to every peer
+// that has reached the evidence height (the reactor waits for a lagging peer). Returns true if a pool accepted something.
+func (net *Net) gossipEvidence() bool {
+	progress := false
+	for _, i := range net.Alive() {
+		pend, _ := i.EvPool.PendingEvidence(-1)
+		for _, ev := range pend {
+			for _, j := range net.Alive() {
+				if j == i || j.BO.Height() < ev.Height() {
+					continue
+				}
+				k := fmt.Sprintf("%d|%x", j.Idx, ev.Hash())
+				if net.evSent[k] {
+					continue
+				}
+				if net.evSent == nil {
+					net.evSent = map[string]bool{}
+				}
+				net.evSent[k] = true
+				if err := ev.ValidateBasic(); err != nil {
+					net.EvRejects = append(net.EvRejects, fmt.Sprintf("evidence of node %d fails ValidateBasic: %v", i.Idx, err))
+					continue
+				}
+				if err := j.EvPool.AddEvidence(ev); err != nil {
+					net.EvRejects = append(net.EvRejects, fmt.Sprintf("node %d rejected evidence %x (height %d) offered by node %d: %v", j.Idx, ev.Hash().Bytes()[:4], ev.Height(), i.Idx, err))
+				} else {
+					net.Stats["evidence_gossiped"]++
+					progress = true
+				}
+			}
+		}
+	}
+	return progress
 }
 
 // fingerprint summarises what a node holds (used to detect gossip fixpoints).
@@ -766,3 +807,6 @@ func (net *Net) Dump() []string {
 	}
 	return out
 }
+
+// FireNode fires the armed timeout of one node.
+func (net *Net) FireNode(n *Node) bool { return net.fire(n) }
